@@ -453,6 +453,7 @@ def handle (line : String) : String :=
   | ["stress", "transient", "sub", _, n] => s!"specfail stress-transient-wrong n={n}"
   | ["muxu", _n, _leave, "hang"] => "specfail mux-delivery-hangs-while-a-child-unregisters"
   | ["muxu", _n, _leave, "panic"] => "specfail panic-while-a-child-unregisters"
+  | ["muxu", _n, _leave, "crashed"] => "specfail process-crashed-while-a-child-unregisters"
   | ["muxu", n, leave, counts] =>
     -- a child unregisters while the delivery of a bundle to the children is in progress: every other
     -- registered child is handed the bundle exactly once, the leaving one at most once
